@@ -18,7 +18,7 @@ for name in "$@"; do
   t1=$(date +%s)
   git -C /repo worktree remove --force $wt >/dev/null 2>&1
   rm -f /verif/.build/checks-*-$(echo -n $wt | sha1sum | cut -c1-8).test
-  msg=$(grep -B3 -m1 "^VIOLATION" $log | grep -v "^VIOLATION" | head -3 | tr '\n' ' ' | cut -c1-400)
+  msg=$(grep -B6 -m1 "^VIOLATION" $log | grep -v "^VIOLATION" | grep -v "^KNOWN-FINDING" | grep -v "^C[0-9]* quick" | head -3 | tr '\n' ' ' | cut -c1-400)
   python3 - "$name" "$id" "$rc" "$((t1-t0))" "$msg" <<'PY'
 import json,sys,subprocess
 name,pid,rc,secs,msg=sys.argv[1:6]
